@@ -224,10 +224,17 @@ func (m *Map) LoadAndDelete(k any) (any, bool) {
 	delete(m.m, k)
 	return v, ok
 }
+// OnMapDelete, when set by a harness, sees every removal from a managed Map before it happens
+// (used to assert what must hold about a value at the moment it is unregistered).
+var OnMapDelete func(m *Map, k, old any)
+
 func (m *Map) Delete(k any) {
 	if !m.managed() {
 		m.real.Delete(k)
 		return
+	}
+	if old, ok := m.m[k]; ok && OnMapDelete != nil {
+		OnMapDelete(m, k, old)
 	}
 	delete(m.m, k)
 }
